@@ -1474,13 +1474,16 @@ func checkJSONProg(c JSONProgCase) *pk.Failure {
 		return pk.Failf("json-prog", "prog-rejected:"+msgClass(msg), "the analyzer rejected the program:\n%s%s", msg, ctx)
 	}
 	shown := map[string]string{}
+	var fails []*pk.Failure
 	for _, be := range []string{"vm", "tree"} {
 		run := resp.Run(be)
 		if run == nil {
-			return pk.Failf("json-prog", "no-run:"+be, "no result for backend %s\n%s", be, ctx)
+			fails = append(fails, pk.Failf("json-prog", "no-run:"+be, "no result for backend %s\n%s", be, ctx))
+			continue
 		}
 		if run.CompileErr != "" || run.InitPanic != "" {
-			return pk.Failf("json-prog", "json-prog:"+be+":compile", "%s%s\n%s", run.CompileErr, run.InitPanic, ctx)
+			fails = append(fails, pk.Failf("json-prog", "json-prog:"+be+":compile", "%s%s\n%s", run.CompileErr, run.InitPanic, ctx))
+			continue
 		}
 		secs := sections(run.Writes)
 		cls, kind, msg := px.OutcomeClass(run.Outcome)
@@ -1488,12 +1491,14 @@ func checkJSONProg(c JSONProgCase) *pk.Failure {
 			msg = run.Outcome.Message
 		}
 		if len(secs) < 3 {
-			return pk.Failf("json-prog", fmt.Sprintf("json-prog:%s:as-cast:%s/%s:%s:%s", be, cls, kind, msgClass(msg), jsonFeatures(c.V.V)),
-				"[%s] `v.to_json().parse_json() as T` did not complete: %s/%s %q, output %q\n%s", be, cls, kind, run.Outcome.Message, strings.Join(run.Writes, ""), ctx)
+			fails = append(fails, pk.Failf("json-prog", fmt.Sprintf("json-prog:%s:as-cast:%s/%s:%s:%s", be, cls, kind, msgClass(msg), jsonFeatures(c.V.V)),
+				"[%s] `v.to_json().parse_json() as T` did not complete: %s/%s %q, output %q\n%s", be, cls, kind, run.Outcome.Message, strings.Join(run.Writes, ""), ctx))
+			continue
 		}
 		if secs[0] != "true\n" {
-			return pk.Failf("json-prog", fmt.Sprintf("json-prog:%s:as-cast:unequal:%s", be, jsonFeatures(c.V.V)),
-				"[%s] v == (v.to_json().parse_json() as T) printed %q\n%s", be, secs[0], ctx)
+			fails = append(fails, pk.Failf("json-prog", fmt.Sprintf("json-prog:%s:as-cast:unequal:%s", be, jsonFeatures(c.V.V)),
+				"[%s] v == (v.to_json().parse_json() as T) printed %q\n%s", be, secs[0], ctx))
+			continue
 		}
 		shown[be] = secs[1]
 		// the annotated-let form (no conversions allowed) is recorded, not asserted
@@ -1506,16 +1511,16 @@ func checkJSONProg(c JSONProgCase) *pk.Failure {
 			pk.Class("doubt:let-form:" + be + ":printed-" + strings.TrimSpace(secs[2]))
 		}
 	}
-	if shown["vm"] != shown["tree"] {
+	if _, both := shown["tree"]; both && shown["vm"] != "" && shown["vm"] != shown["tree"] {
 		if multiKey(c.V.V) {
 			if !sameLines(shown["vm"], shown["tree"]) {
-				return pk.Failf("json-prog", "display-differs:prog:"+displayFeature(c.V.V), "println(v) differs between the backends (beyond field order):\n  vm:   %q\n  tree: %q\n%s", shown["vm"], shown["tree"], ctx)
+				fails = append(fails, pk.Failf("json-prog", "display-differs:prog:"+displayFeature(c.V.V), "println(v) differs between the backends (beyond field order):\n  vm:   %q\n  tree: %q\n%s", shown["vm"], shown["tree"], ctx))
 			}
 		} else {
-			return pk.Failf("json-prog", "display-differs:prog:"+displayFeature(c.V.V), "println(v) differs between the backends:\n  vm:   %q\n  tree: %q\n%s", shown["vm"], shown["tree"], ctx)
+			fails = append(fails, pk.Failf("json-prog", "display-differs:prog:"+displayFeature(c.V.V), "println(v) differs between the backends:\n  vm:   %q\n  tree: %q\n%s", shown["vm"], shown["tree"], ctx))
 		}
 	}
-	return nil
+	return pick(fails)
 }
 
 var _ = sb.DefaultLimits
